@@ -39,6 +39,7 @@ fn view(t: Ty) -> Ty {
     Ty::View(Box::new(t))
 }
 
+#[allow(dead_code)]
 fn ty_json(t: &Ty) -> Value {
     match t {
         Ty::Prim(p) => json!({"k": "prim", "t": p}),
@@ -174,12 +175,56 @@ struct Gen {
     /// names of labels that will be placed later in an enclosing block
     pending_labels: Vec<String>,
     size: usize,
+    // ---- dimension audit (docs/notes-machine.md "Dimension audit"); every draw for these comes after the old ones of its unit
+    /// named constants usable as array lengths: (value, name); an array type of that length is written `[NAME]T`
+    len_consts: Vec<(usize, String)>,
+    /// labels of the enclosing constructs a `goto` may leave (outermost first)
+    exit_stack: Vec<String>,
+    /// names of the pool already used in the function being generated (a name is used once per function)
+    pool_used: std::collections::BTreeSet<String>,
+    /// names that must not be reused as pool names anywhere (functions taken from the pool)
+    fn_names: Vec<String>,
 }
+
+/// Names the tool chain or the generated code knows on its own (C library functions, basic-block names), and names of the
+/// label pool: used for functions and variables now and then, so that one name lives in several namespaces.  (A private
+/// function named `write` or `snprintf` took the symbol of the C library function that `print!` calls: finding F-A2 of the
+/// dimension audit, fixed in /repo d8fb3cd.)
+const FN_NAME_POOL: [&str; 12] = ["write", "snprintf", "abort", "memcpy", "memset", "printf", "exit", "malloc", "strlen", "entry", "puts", "trap"];
+const VAR_NAME_POOL: [&str; 12] = ["write", "snprintf", "abort", "memcpy", "entry", "after", "then", "end", "out", "next", "done", "looped"];
 
 impl Gen {
     fn fresh(&mut self, p: &str) -> String {
         self.counter += 1;
         format!("{p}{}", self.counter)
+    }
+    /// a name for a local variable: now and then a name that also names something else (a C library function, a basic
+    /// block, a label of the pool, a function of this program)
+    fn fresh_var(&mut self, p: &str) -> String {
+        if self.rng.chance(12) {
+            let mut cands: Vec<String> = VAR_NAME_POOL.iter().map(|x| x.to_string()).collect();
+            cands.extend(self.fns.iter().map(|f| f.name.clone()));
+            let name = cands[self.rng.below(cands.len())].clone();
+            let taken = self.pool_used.contains(&name) || self.scopes.iter().flatten().any(|v| v.name == name) || self.consts.iter().any(|v| v.name == name);
+            if !taken {
+                self.pool_used.insert(name.clone());
+                return name;
+            }
+        }
+        self.fresh(p)
+    }
+    /// the type term of the exchange format; an array whose length is the value of a length constant names it
+    fn tyj(&self, t: &Ty) -> Value {
+        match t {
+            Ty::Prim(p) => json!({"k": "prim", "t": p}),
+            Ty::Ptr(e) => json!({"k": "ptr", "e": self.tyj(e)}),
+            Ty::Arr(n, e) => match self.len_consts.iter().find(|(v, _)| v == n) {
+                Some((_, name)) => json!({"k": "array", "n": n, "e": self.tyj(e), "nc": name}),
+                None => json!({"k": "array", "n": n, "e": self.tyj(e)}),
+            },
+            Ty::View(e) => json!({"k": "view", "e": self.tyj(e)}),
+            Ty::Named(n) => json!({"k": "named", "n": n}),
+        }
     }
     fn int_type(&mut self) -> &'static str {
         INT_TYPES[self.rng.below(INT_TYPES.len())]
@@ -319,9 +364,14 @@ impl Gen {
                     }
                 }
             } else {
-                let k = 1 + self.rng.below(4);
+                let mut k = 1 + self.rng.below(4);
                 let mut ms = Vec::new();
                 let mut has_ptr = false;
+                let many_members = self.rng.chance(10);
+                if many_members {
+                    // ten and more members (member offsets beyond the first few)
+                    k = 10 + self.rng.below(5);
+                }
                 for _ in 0..k {
                     let t = match self.rng.below(10) {
                         0 | 1 | 2 | 3 => Ty::Prim(self.scalar_type()),
@@ -698,7 +748,10 @@ impl Gen {
                     }
                     "<<" | ">>" => {
                         if self.in_const || self.rng.chance(90) {
-                            lit(t, self.rng.below(width(t) as usize) as u128)
+                            let amount = self.rng.below(width(t) as usize) as u128;
+                            // the boundaries: by nothing, by width - 1
+                            let amount = if self.rng.chance(25) { if self.rng.chance(50) { 0 } else { (width(t) - 1) as u128 } } else { amount };
+                            lit(t, amount)
                         } else if self.rng.chance(80) {
                             // a computed shift amount below the width
                             let e = self.expr(t, depth - 1);
@@ -740,7 +793,7 @@ impl Gen {
                     }
                     let t = self.sized_type();
                     if self.size_is_constrained(&t) {
-                        return json!({"k": "sizeof", "ty": ty_json(&t)});
+                        return json!({"k": "sizeof", "ty": self.tyj(&t)});
                     }
                 }
                 let e = self.expr(t, depth - 1);
@@ -786,7 +839,16 @@ impl Gen {
             }
             10 => {
                 let words: Vec<String> = self.structs.iter().filter(|d| d.bits.is_some()).map(|d| d.name.clone()).collect();
-                if words.is_empty() { Ty::Prim(self.int_type()) } else { arr(1 + self.rng.below(3), Ty::Named(words[self.rng.below(words.len())].clone())) }
+                let t = if words.is_empty() { Ty::Prim(self.int_type()) } else { arr(1 + self.rng.below(3), Ty::Named(words[self.rng.below(words.len())].clone())) };
+                // arrays of structures (of arrays), 3-dimensional arrays, arrays without elements
+                let structs: Vec<String> = self.structs.iter().filter(|d| d.bits.is_none() && !d.has_ptr).map(|d| d.name.clone()).collect();
+                match self.rng.below(8) {
+                    0 | 1 if !structs.is_empty() => arr(1 + self.rng.below(3), Ty::Named(structs[self.rng.below(structs.len())].clone())),
+                    2 => arr(1 + self.rng.below(2), arr(1 + self.rng.below(2), arr(1 + self.rng.below(3), Ty::Prim(self.int_type())))),
+                    3 => arr(0, Ty::Prim(self.int_type())),
+                    4 => arr(1 + self.rng.below(2), arr(0, Ty::Prim(self.int_type()))),
+                    _ => t,
+                }
             }
             _ => Ty::Prim(self.int_type()),
         }
@@ -825,7 +887,7 @@ impl Gen {
                     let n = 1 + self.rng.below(3);
                     let es: Vec<Value> = (0..n).map(|_| c[self.rng.below(c.len())].clone()).collect();
                     let name = self.fresh("q");
-                    out.push(json!({"k": "V", "x": name, "ty": ty_json(&arr(n, t.clone())), "e": {"k": "arr", "es": es}}));
+                    out.push(json!({"k": "V", "x": name, "ty": self.tyj(&arr(n, t.clone())), "e": {"k": "arr", "es": es}}));
                     self.declare(&name, arr(n, t), false);
                     return;
                 }
@@ -836,7 +898,7 @@ impl Gen {
                     t = ptr(t);
                 }
                 let name = self.fresh("r");
-                out.push(json!({"k": "V", "x": name, "ty": ty_json(&t), "e": p.reference(j)}));
+                out.push(json!({"k": "V", "x": name, "ty": self.tyj(&t), "e": p.reference(j)}));
                 self.declare(&name, t, false);
             }
             2 => {
@@ -846,7 +908,7 @@ impl Gen {
                 let two = self.rng.chance(50);
                 let ty = if two { arr(n1, arr(n2, t.clone())) } else { arr(n2, t.clone()) };
                 let name = self.fresh("un");
-                out.push(json!({"k": "V", "x": name, "ty": ty_json(&ty)}));
+                out.push(json!({"k": "V", "x": name, "ty": self.tyj(&ty)}));
                 let p = if let Ty::Prim(p) = t { p } else { unreachable!() };
                 for i in 0..(if two { n1 } else { 1 }) {
                     for j in 0..n2 {
@@ -883,24 +945,24 @@ impl Gen {
                 if !self.scopes.iter().flatten().any(|v| v.name == m) {
                     self.calls_left = 0;
                     let e = self.expr(p, 2);
-                    out.push(json!({"k": "V", "x": m, "ty": ty_json(&Ty::Prim(p)), "e": e}));
+                    out.push(json!({"k": "V", "x": m, "ty": self.tyj(&Ty::Prim(p)), "e": e}));
                     self.declare(&m, Ty::Prim(p), false);
                     let fs: Vec<Value> = d.ms.iter().map(|(mm, tt)| if *mm == m { json!({"m": mm, "e": var(&m)}) } else { json!({"m": mm, "e": self.value_of(tt, 1)}) }).collect();
                     let name = self.fresh("s");
-                    out.push(json!({"k": "V", "x": name, "ty": ty_json(&t), "e": {"k": "st", "n": n, "fs": fs}}));
+                    out.push(json!({"k": "V", "x": name, "ty": self.tyj(&t), "e": {"k": "st", "n": n, "fs": fs}}));
                     self.declare(&name, t.clone(), false);
                     return;
                 }
             }
         }
-        let name = self.fresh(prefix);
+        let name = self.fresh_var(prefix);
         self.calls_left = 1;
         let e = if self.is_copyable(&t) && self.rng.chance(12) { self.effect_call(&t) } else { None };
         let e = match e {
             Some(e) => e,
             None => self.value_of(&t, 2),
         };
-        out.push(json!({"k": "V", "x": name, "ty": ty_json(&t), "e": e}));
+        out.push(json!({"k": "V", "x": name, "ty": self.tyj(&t), "e": e}));
         self.declare(&name, t, false);
     }
     /// a call with `&` arguments as the whole right hand side
@@ -1034,7 +1096,7 @@ impl Gen {
                     }
                     let name = self.fresh("r");
                     let e = c[self.rng.below(c.len())].clone();
-                    out.push(json!({"k": "V", "x": name, "ty": ty_json(&ptr(b.clone())), "e": e}));
+                    out.push(json!({"k": "V", "x": name, "ty": self.tyj(&ptr(b.clone())), "e": e}));
                     self.declare(&name, ptr(b), false);
                     return;
                 }
@@ -1052,7 +1114,7 @@ impl Gen {
         };
         let name = self.fresh(prefix);
         let e = self.value_of(&target, 1);
-        out.push(json!({"k": "V", "x": name, "ty": ty_json(&target), "e": e}));
+        out.push(json!({"k": "V", "x": name, "ty": self.tyj(&target), "e": e}));
         self.declare(&name, target, false);
     }
     /// declare what is missing so that f can be called, call it, and look at the caller's cells
@@ -1164,7 +1226,7 @@ impl Gen {
             if dests.is_empty() {
                 // a function with a result is called for its effects through a declaration
                 let name = self.fresh("v");
-                out.push(json!({"k": "V", "x": name, "ty": ty_json(rt), "e": {"k": "call", "f": f.name, "args": args}}));
+                out.push(json!({"k": "V", "x": name, "ty": self.tyj(rt), "e": {"k": "call", "f": f.name, "args": args}}));
                 self.declare(&name, rt.clone(), false);
                 return true;
             }
@@ -1196,7 +1258,7 @@ impl Gen {
         let writable = if is_view { p.base().1 > 0 } else { p.writable || p.base().1 > 0 };
         let i = self.fresh("ix");
         let lbl = self.choose_label(Some(self.label_sets.len() - 1));
-        out.push(json!({"k": "V", "x": i, "ty": ty_json(&Ty::Prim("usize")), "e": usize_lit(0)}));
+        out.push(json!({"k": "V", "x": i, "ty": self.tyj(&Ty::Prim("usize")), "e": usize_lit(0)}));
         self.declare(&i, Ty::Prim("usize"), true);
         out.push(json!({"k": "O"}));
         out.push(json!({"k": "IG", "c": {"op": "==", "l": var(&i), "r": {"k": "len", "r": p.plain()}}, "n": lbl}));
@@ -1258,6 +1320,12 @@ impl Gen {
                         None if self.has_return_label => Some("return".to_string()),
                         None => None,
                     };
+                    // ... or out of several enclosing blocks / loops at once, to the exit label of an outer construct
+                    let target = if self.exit_stack.len() >= 2 && self.rng.chance(40) {
+                        Some(self.exit_stack[self.rng.below(self.exit_stack.len() - 1)].clone())
+                    } else {
+                        target
+                    };
                     if let Some(l) = target {
                         let c = self.cond();
                         out.push(json!({"k": "IG", "c": c, "n": l}));
@@ -1272,16 +1340,31 @@ impl Gen {
                     let i = self.fresh("cnt");
                     let k = 1 + self.rng.below(4 * self.size) as u128;
                     let lbl = self.choose_label(Some(self.label_sets.len() - 1));
-                    out.push(json!({"k": "V", "x": i, "ty": ty_json(&Ty::Prim("u8")), "e": lit("u8", 0)}));
+                    out.push(json!({"k": "V", "x": i, "ty": self.tyj(&Ty::Prim("u8")), "e": lit("u8", 0)}));
                     self.declare(&i, Ty::Prim("u8"), true);
                     out.push(json!({"k": "O"}));
                     self.open_block();
                     if self.rng.chance(50) {
                         out.push(json!({"k": "P", "e": var(&i)}));
                     }
-                    self.statements(out, depth + 1, Some(&lbl));
-                    out.push(json!({"k": "IG", "c": {"op": ">=", "l": var(&i), "r": lit("u8", k)}, "n": lbl}));
-                    out.push(json!({"k": "S", "x": i, "e": {"k": "bin", "op": "+", "l": var(&i), "r": lit("u8", 1)}}));
+                    self.exit_stack.push(lbl.clone());
+                    if self.rng.chance(30) {
+                        // `{ if i >= k goto out; i = i + 1; ...; if c goto cont; ...; cont: loop; }`: the label is the last
+                        // statement before `loop` (a jump to it starts the next iteration)
+                        let cont = self.choose_label(Some(self.label_sets.len() - 1));
+                        out.push(json!({"k": "IG", "c": {"op": ">=", "l": var(&i), "r": lit("u8", k)}, "n": lbl}));
+                        out.push(json!({"k": "S", "x": i, "e": {"k": "bin", "op": "+", "l": var(&i), "r": lit("u8", 1)}}));
+                        self.exit_stack.push(cont.clone());
+                        self.statements(out, depth + 1, Some(&cont));
+                        self.exit_stack.pop();
+                        out.push(json!({"k": "L", "n": cont}));
+                        self.place_label(&cont);
+                    } else {
+                        self.statements(out, depth + 1, Some(&lbl));
+                        out.push(json!({"k": "IG", "c": {"op": ">=", "l": var(&i), "r": lit("u8", k)}, "n": lbl}));
+                        out.push(json!({"k": "S", "x": i, "e": {"k": "bin", "op": "+", "l": var(&i), "r": lit("u8", 1)}}));
+                    }
+                    self.exit_stack.pop();
                     out.push(json!({"k": "LP"}));
                     self.close_block();
                     out.push(json!({"k": "C"}));
@@ -1293,7 +1376,9 @@ impl Gen {
                     let lbl = self.choose_label(None);
                     out.push(json!({"k": "O"}));
                     self.open_block();
+                    self.exit_stack.push(lbl.clone());
                     self.statements(out, depth + 1, Some(&lbl));
+                    self.exit_stack.pop();
                     out.push(json!({"k": "L", "n": lbl}));
                     self.place_label(&lbl);
                     self.close_block();
@@ -1343,8 +1428,10 @@ impl Gen {
         }
     }
     fn function(&mut self) -> Value {
-        let name = self.fresh("h");
+        let mut name = self.fresh("h");
         let np = self.rng.below(4);
+        self.pool_used.clear();
+        self.exit_stack.clear();
         let mut params = Vec::new();
         let mut sig = Vec::new();
         self.scopes = vec![Vec::new()];
@@ -1374,10 +1461,19 @@ impl Gen {
                 forced.push((view(it), n));
             }
         }
+        // seven to twelve parameters now and then (registers and stack), and a name the tool chain knows
+        let np = if self.rng.chance(8) { 7 + self.rng.below(6) } else { np };
+        if self.rng.chance(15) {
+            let cand = FN_NAME_POOL[self.rng.below(FN_NAME_POOL.len())].to_string();
+            if !self.fn_names.contains(&cand) {
+                self.fn_names.push(cand.clone());
+                name = cand;
+            }
+        }
         for k in 0..np.max(forced.len()) {
             let (t, minlen) = if k < forced.len() { forced[k].clone() } else { self.param_type() };
             let p = self.fresh("p");
-            params.push(json!({"x": p, "ty": ty_json(&t)}));
+            params.push(json!({"x": p, "ty": self.tyj(&t)}));
             let hidden = false;
             self.scopes[0].push(Variable { name: p.clone(), ty: t.clone(), kind: Kind::Param, minlen, depth: 0, hidden });
             sig.push((p, t, minlen));
@@ -1402,7 +1498,7 @@ impl Gen {
             let rv = self.fresh("res");
             self.calls_left = 0;
             let e = self.value_of(&rt, 1);
-            body.push(json!({"k": "V", "x": rv, "ty": ty_json(&rt), "e": e}));
+            body.push(json!({"k": "V", "x": rv, "ty": self.tyj(&rt), "e": e}));
             self.declare(&rv, rt, false);
             result_var = Some(rv);
         }
@@ -1426,7 +1522,7 @@ impl Gen {
                 self.touch_param(v, &mut body);
             }
         }
-        let mut f = json!({"name": name, "params": params, "ret": match &ret { Some(t) => ty_json(t), None => json!({"k": "void"}) }});
+        let mut f = json!({"name": name, "params": params, "ret": match &ret { Some(t) => self.tyj(t), None => json!({"k": "void"}) }});
         if let Some(rt) = &ret {
             match &result_var {
                 Some(rv) => {
@@ -1464,10 +1560,37 @@ pub fn program(seed: u64, i: u64, size: usize) -> Value {
         in_cond: false,
         label_sets: vec![Default::default()],
         pending_labels: Vec::new(),
+        len_consts: Vec::new(),
+        exit_stack: Vec::new(),
+        pool_used: Default::default(),
+        fn_names: Vec::new(),
     };
     g.gen_structs();
     // constants: scalars, arrays, structures and words (no pointers: E360)
     let mut consts = Vec::new();
+    // named constants used as array lengths (the value of each is written in one of three ways; Trace_Machine checks that
+    // every `[NAME]T` of the logged program has exactly as many elements as the machine computes for NAME)
+    if g.rng.chance(45) {
+        for _ in 0..(1 + g.rng.below(2)) {
+            let v = g.rng.below(5);
+            if g.len_consts.iter().any(|(x, _)| *x == v) {
+                continue;
+            }
+            let name = g.fresh("LN");
+            let e = match g.rng.below(3) {
+                0 => usize_lit(v),
+                1 if v >= 1 => json!({"k": "bin", "op": "+", "l": usize_lit(v - 1), "r": usize_lit(1)}),
+                2 if v == 1 || v == 2 || v == 4 => {
+                    let tn = if v == 1 { "u8" } else if v == 2 { "i16" } else { "u32" };
+                    json!({"k": "sizeof", "ty": {"k": "prim", "t": tn}})
+                }
+                _ => json!({"k": "bin", "op": "-", "l": usize_lit(v + 7), "r": usize_lit(7)}),
+            };
+            consts.push(json!({"x": name, "ty": {"k": "prim", "t": "usize"}, "e": e}));
+            g.consts.push(Variable { name: name.clone(), ty: Ty::Prim("usize"), kind: Kind::Const, minlen: 0, depth: 0, hidden: false });
+            g.len_consts.push((v, name));
+        }
+    }
     for _ in 0..g.rng.below(4) {
         let mut t = g.storable_type();
         let has_ptr = |g: &Gen, t: &Ty| -> bool {
@@ -1489,7 +1612,7 @@ pub fn program(seed: u64, i: u64, size: usize) -> Value {
         g.in_const = true;
         let e = g.value_of(&t, 2);
         g.in_const = false;
-        consts.push(json!({"x": name, "ty": ty_json(&t), "e": e}));
+        consts.push(json!({"x": name, "ty": g.tyj(&t), "e": e}));
         g.consts.push(Variable { name, ty: t, kind: Kind::Const, minlen: 0, depth: 0, hidden: false });
     }
     let mut fns = Vec::new();
@@ -1501,7 +1624,31 @@ pub fn program(seed: u64, i: u64, size: usize) -> Value {
     g.label_sets = vec![Default::default()];
     g.pending_labels.clear();
     let mut body = Vec::new();
+    g.pool_used.clear();
+    g.exit_stack.clear();
     g.budget = (4 + g.rng.below(14)) * g.size;
+    if g.rng.chance(10) {
+        // an array of 100 / 130 elements (across 2^7), declared without a value and filled by a loop
+        let n = if g.rng.chance(50) { 100 } else { 130 };
+        let t = g.int_type();
+        let name = g.fresh("big");
+        let i = g.fresh("ix");
+        let lbl = g.choose_label(Some(0));
+        body.push(json!({"k": "V", "x": name, "ty": g.tyj(&arr(n, Ty::Prim(t)))}));
+        body.push(json!({"k": "V", "x": i, "ty": g.tyj(&Ty::Prim("usize")), "e": usize_lit(0)}));
+        g.declare(&i, Ty::Prim("usize"), true);
+        body.push(json!({"k": "O"}));
+        body.push(json!({"k": "IG", "c": {"op": "==", "l": var(&i), "r": {"k": "len", "r": {"x": name, "addr": 0, "steps": []}}}, "n": lbl}));
+        let as_t = if t == "usize" { var(&i) } else { json!({"k": "as", "t": t, "e": var(&i)}) };
+        body.push(json!({"k": "A", "r": {"x": name, "addr": 0, "steps": [{"k": "i", "e": var(&i)}]},
+                         "e": {"k": "bin", "op": "+", "l": as_t, "r": lit(t, 3)}}));
+        body.push(json!({"k": "S", "x": i, "e": {"k": "bin", "op": "+", "l": var(&i), "r": usize_lit(1)}}));
+        body.push(json!({"k": "LP"}));
+        body.push(json!({"k": "C"}));
+        body.push(json!({"k": "L", "n": lbl}));
+        g.place_label(&lbl);
+        g.declare(&name, arr(n, Ty::Prim(t)), false);
+    }
     g.statements(&mut body, 0, None);
     // every function is called at least once, with the caller's cells printed afterwards
     let sigs = g.fns.clone();
@@ -1515,6 +1662,13 @@ pub fn program(seed: u64, i: u64, size: usize) -> Value {
             g.call_with_setup(f, &mut body);
         }
     }
+    if g.rng.chance(30) {
+        // the END of the output: the last thing printed has no line break after it
+        g.calls_left = 0;
+        let t = g.scalar_type();
+        let e = g.expr(t, 1);
+        body.push(json!({"k": "P", "e": e, "nonl": true}));
+    }
     g.calls_left = 1;
     let res = g.expr("u8", 2);
     let mut all = vec![json!({"name": "main", "params": [], "ret": {"k": "prim", "t": "u8"}, "body": body, "res": res})];
@@ -1523,7 +1677,7 @@ pub fn program(seed: u64, i: u64, size: usize) -> Value {
         .structs
         .iter()
         .map(|d| {
-            let ms: Vec<Value> = d.ms.iter().map(|(m, t)| json!({"x": m, "ty": ty_json(t)})).collect();
+            let ms: Vec<Value> = d.ms.iter().map(|(m, t)| json!({"x": m, "ty": g.tyj(t)})).collect();
             match d.bits {
                 Some(b) => json!({"name": d.name, "kind": "word", "bits": b, "ms": ms}),
                 None => json!({"name": d.name, "kind": "struct", "ms": ms}),
